@@ -398,6 +398,7 @@ def showLexItem : Lexer.Item → String
   | .err (.lexical l) => s!"ERR:LexicalError:{l}"
   | .err (.invalidConstant a b) => s!"ERR:InvalidConstant:{a}:{b}"
   | .err (.unterminatedComment l) => s!"ERR:UnterminatedComment:{l}"
+  | .err .outOfFuel => "MODEL-OUT-OF-FUEL"
 
 def binOpName : BinOp → String
   | .add => "add" | .sub => "sub" | .mul => "mul" | .div => "div" | .or => "or" | .xor => "xor" | .and => "and"
@@ -494,6 +495,14 @@ def handleLex (fields : List SExp) : String :=
   let text : List Char := (field fields "text").filterMap fun e => e.nat?.map Char.ofNat
   "M " ++ " ".intercalate ((Lexer.lex cls text).map showLexItem) ++ " ;; S -"
 
+/-- `(anytext (how ..) (render ..) <inner request>)`: the inner request is answered -/
+def innerRequest (fields : List SExp) : Option (String × List SExp) :=
+  fields.findSome? fun e =>
+    match e.tagged? with
+    | some ("prog", f) => some ("prog", f)
+    | some ("lex", f) => some ("lex", f)
+    | _ => none
+
 def handle (line : String) : String :=
   match SExp.parse line with
   | none => "bad-request unparsable"
@@ -508,6 +517,12 @@ def handle (line : String) : String :=
     | some ("table", fields) => handleTable fields
     | some ("cli", fields) => handleCli fields
     | some ("lex", fields) => handleLex fields
+    | some ("rawfile", _) => "M - ;; S -"
+    | some ("anytext", fields) =>
+      (match innerRequest fields with
+       | some ("prog", f) => handleProg f
+       | some ("lex", f) => handleLex f
+       | _ => "bad-request anytext-without-inner")
     | some ("region", fields) => handleRegion fields
     | some ("diag", fields) => handleDiag fields
     | some ("parse", fields) => handleParse fields
